@@ -435,7 +435,7 @@ trigonometric_operators = (sin, cos, tan)
 
 multiple_output_operators = {modf: 2, frexp: 2, divmod_: 2}
 
-LARGE_INPUT = {4: 16777217, 8: 9007199254740993}
+LARGE_INPUT = {2: 2049, 4: 16777217, 8: 9007199254740993}
 
 
 class unyt_array(np.ndarray):
